@@ -361,7 +361,9 @@ def r5_cache_primitives(ctx):
     for fname, method, what in ((CHECK, 'get', 'probe'), (SET, 'insert', 'store')):
         f = facts.need_fn(fname)
         # key parameter = the tuple-typed parameter
-        kp = [i for i in range(1, f.arg_count + 1) if f.local_ty(i).startswith('(')]
+        # key parameter = the by-value parameter that is a tuple or a struct (not the context reference, not the scalar score)
+        PRIM = {'i8', 'i16', 'i32', 'i64', 'u8', 'u16', 'u32', 'u64', 'usize', 'isize', 'bool'}
+        kp = [i for i in range(1, f.arg_count + 1) if not f.local_ty(i).startswith('&') and f.local_ty(i) not in PRIM]
         outs = Engine(facts).run(fname)
         ctx.touch(fname)
         ops = []
